@@ -15,7 +15,8 @@ import PilotaModel.Proto.Lowering
     * repeated scalar numeric fields: one record per element, or packed runs (LEN record holding the
       concatenated payloads), mixed and split arbitrarily; parsers must accept both;
     * map<K,V> field = repeated embedded message { K key = 1; V value = 2; };
-    * fields may appear in any order; a field equal to its default may be omitted (implicit presence).
+    * fields may appear in any order; a field equal to its default may be omitted (implicit presence);
+    * every length prefix is a 64-bit quantity (`< 2 ^ 64`).
 
   `Spec.Enc ps i m bs`: `bs` is a conforming encoding of value `m` of message `i` of the declared
   schema `ps`.  `lowerSchema` is pilota-build's lowering of the declared schema to codec modules.
@@ -142,7 +143,8 @@ def EncPacked (t : Nat) (ty : PFTy) : List Rec → List SVal → Prop
     r.tag = t ∧
     ((r.wt = wireOfTy ty ∧ ∃ v vs', vs = v :: vs' ∧ r.payload = encScalar (scalarTy ty) v ∧ EncPacked t ty rs vs') ∨
      (r.wt = .len ∧ ∃ chunk rest, vs = chunk ++ rest ∧ chunk ≠ [] ∧
-        r.payload = lenDelim (chunk.flatMap (encScalar (scalarTy ty))) ∧ EncPacked t ty rs rest))
+        r.payload = lenDelim (chunk.flatMap (encScalar (scalarTy ty))) ∧
+        (chunk.flatMap (encScalar (scalarTy ty))).length < 2 ^ 64 ∧ EncPacked t ty rs rest))
 
 /-- the zero value of a declared type, bit for bit: what an omitted field means to a parser (a
 scalar zero / empty string; for an embedded message, the message with every field at its zero). -/
@@ -162,7 +164,8 @@ mutual
 def EncE (ps : PSchema) : PFTy → EVal → Rec → Prop
   | .scalar t, .s x, r => r.wt = wireOf t ∧ r.payload = encScalar t x
   | .enum, .s x, r => r.wt = .varint ∧ r.payload = encScalar .int32 x
-  | .msg i, .msg fs, r => r.wt = .len ∧ ∃ rs, r.payload = lenDelim (flat rs) ∧ EncSlots ps (pdecls ps i) fs rs
+  | .msg i, .msg fs, r =>
+    r.wt = .len ∧ ∃ rs, r.payload = lenDelim (flat rs) ∧ (flat rs).length < 2 ^ 64 ∧ EncSlots ps (pdecls ps i) fs rs
   | _, _, _ => False
 /-- the records of one field, in their relative order. -/
 def EncSlot (ps : PSchema) : PDecl → Slot → List Rec → Prop
@@ -194,7 +197,7 @@ def EncMap (ps : PSchema) (t : Nat) (k : PType) (vty : PFTy) : Pairs → List Re
   | .nil, rs => rs = []
   | .cons kk v r, rs =>
     ∃ e rs', rs = e :: rs' ∧ e.tag = t ∧ e.wt = .len ∧
-      (∃ es, e.payload = lenDelim (flat es) ∧ (∀ x ∈ es, x.tag = 1 ∨ x.tag = 2) ∧
+      (∃ es, e.payload = lenDelim (flat es) ∧ (flat es).length < 2 ^ 64 ∧ (∀ x ∈ es, x.tag = 1 ∨ x.tag = 2) ∧
         ((∃ kr, es.filter (fun x => x.tag == 1) = [kr] ∧ kr.wt = wireOf k ∧ kr.payload = encScalar k kk) ∨
           (es.filter (fun x => x.tag == 1) = [] ∧ kk.exactDefault = true)) ∧
         ((∃ vr, es.filter (fun x => x.tag == 2) = [vr] ∧ EncE ps vty v vr) ∨
